@@ -155,8 +155,10 @@ class Tr:
         if isinstance(st, ast.If):
             test = ast.unparse(st.test)
             if in_commit:
-                if test != "self._pending_commits":
+                if test not in ("self._pending_commits", "self._pending_commits > 0", "self._pending_commits != 0",
+                                "self._pending_commits >= 1"):
                     raise TranslatorError(f"{where}: unexpected test `{test}`")
+                test = "self._pending_commits"
                 info.setdefault("tests", []).append(test)
                 thn = self.stmt_paths(st.body, where, in_commit, info)
                 els = self.stmt_paths(st.orelse, where, in_commit, info)
@@ -270,14 +272,55 @@ def classify_schema(tr: Tr, script: str, where: str):
             res.append(("createTable", tr.tid(name)))
         elif re.match(r"^DELETE FROM option WHERE key = 'database_version';?$", flat, re.I):
             res.append(("deleteVersion",))
-        elif re.match(r"^INSERT INTO option\s*\(key, value\) VALUES\s*\('database_version', '\d+'\);?$", flat, re.I):
-            res.append(("insertVersion",))
-        elif re.match(r"^INSERT OR REPLACE INTO option\s*\(key, value\) VALUES\s*\('database_version', '\d+'\);?$",
-                      flat, re.I):
-            res.append(("upsertVersion",))
+        elif (m2 := re.match(r"^INSERT INTO option\s*\(key, value\) VALUES\s*\('database_version', '(\d+)'\);?$", flat,
+                             re.I)):
+            res.append(("insertVersion", int(m2.group(1))))
+        elif (m2 := re.match(r"^INSERT OR REPLACE INTO option\s*\(key, value\) VALUES\s*\('database_version', '(\d+)'\);?$",
+                             flat, re.I)):
+            res.append(("upsertVersion", int(m2.group(1))))
+        elif (m2 := re.match(r"^UPDATE option SET value\s*=\s*'(\d+)' WHERE key\s*=\s*'database_version';?$", flat, re.I)):
+            res.append(("setVersion", int(m2.group(1))))
+        elif re.match(r"^ALTER TABLE \S+ ADD (COLUMN )?\w+( \w+)?;?$", flat, re.I):
+            res.append(("alterAddCol",))
+        elif re.match(r"^UPDATE (?!option\b)\S+ SET \w+\s*=\s*'[^']*';?$", flat, re.I):
+            res.append(("fillCol",))
+        elif re.match(r"^BEGIN( TRANSACTION| IMMEDIATE| EXCLUSIVE)?;?$", flat, re.I):
+            res.append(("begin",))
+        elif re.match(r"^(COMMIT|END)( TRANSACTION)?;?$", flat, re.I):
+            res.append(("commit",))
+        elif re.match(r"^CREATE (UNIQUE )?INDEX IF NOT EXISTS ", flat, re.I):
+            res.append(("other",))          # re-runnable, does not touch what open() depends on
         else:
             raise TranslatorError(f"{where}: unclassified schema statement: {flat[:80]}")
     return res, tinfo
+
+
+def lean_stmt(s) -> str:
+    return "." + s[0] + ("" if len(s) == 1 else f" {s[1]}")
+
+
+def _upgrades_of(tr: Tr, clsname: str):
+    """LATEST_DB_VERSION and, for every older version v, the classified get_upgrade_script(v) (run, like get_schema);
+    check_database must still be the loop `while version < LATEST: executescript(get_upgrade_script(version))` followed
+    by executescript(get_schema(...)) — checked textually on the unparsed source"""
+    import importlib
+    if clsname == "IdentityDatabase":
+        mod = importlib.import_module("ipv8.attestation.identity.database")
+        return int(mod.IdentityDatabase.LATEST_DB_VERSION), []
+    mod = importlib.import_module("ipv8.attestation.wallet.database")
+    cls = mod.AttestationsDB
+    src = ast.unparse(_class(ast.parse((REPO / SOURCES[1][0]).read_text()), clsname, SOURCES[1][0]))
+    if "get_upgrade_script(current_version=" not in src or "self.executescript(self.get_schema(" not in src:
+        raise TranslatorError(f"{clsname}.check_database no longer has the upgrade loop / schema script shape")
+    inst = cls.__new__(cls)
+    inst.db_name = WALLET_TABLE
+    ups = []
+    for v in range(1, int(cls.LATEST_DB_VERSION)):
+        script = inst.get_upgrade_script(current_version=v)
+        if script:
+            stmts, _ = classify_schema(tr, script, f"{clsname}.get_upgrade_script({v})")
+            ups.append((v, stmts))
+    return int(cls.LATEST_DB_VERSION), ups
 
 
 def version_handlers(base_cls) -> list[str]:
@@ -412,6 +455,41 @@ def translate() -> tuple[str, dict]:
     meta["commit"] = {"idle": idle[0], "deferred": deferred[0]}
     handlers = version_handlers(base_cls)
     meta["version_handlers"] = handlers
+    # durability pragmas as written in _initial_statements (string constants handed to cursor.execute)
+    ini = next((n for n in base_cls.body if isinstance(n, ast.FunctionDef) and n.name == "_initial_statements"), None)
+    if ini is None:
+        raise TranslatorError("Database._initial_statements not found")
+    sqls = []
+    for call in ast.walk(ini):
+        if isinstance(call, ast.Call) and isinstance(call.func, ast.Attribute) \
+                and call.func.attr in ("execute", "executescript") and call.args \
+                and isinstance(call.args[0], ast.Constant) and isinstance(call.args[0].value, str):
+            sqls.append(" ".join(call.args[0].value.upper().split()))
+    jm = [x for x in sqls if x.startswith("PRAGMA JOURNAL_MODE =")]
+    sy = [x for x in sqls if x.startswith("PRAGMA SYNCHRONOUS =")]
+    meta["pragmas"] = {"wal": jm == ["PRAGMA JOURNAL_MODE = WAL"] or
+                              sorted(set(jm)) == ["PRAGMA JOURNAL_MODE = DELETE", "PRAGMA JOURNAL_MODE = WAL"],
+                       "sync_normal": bool(sy) and all(x in ("PRAGMA SYNCHRONOUS = NORMAL", "PRAGMA SYNCHRONOUS = FULL",
+                                                             "PRAGMA SYNCHRONOUS = 1", "PRAGMA SYNCHRONOUS = 2")
+                                                       for x in sy), "journal": jm, "synchronous": sy}
+    # db_call: blocking lock, call whenever the cursor exists
+    dbc = next((n for n in base_tree.body if isinstance(n, ast.FunctionDef) and n.name == "db_call"), None)
+    if dbc is None:
+        raise TranslatorError("db_call not found")
+    wrapper = next((n for n in dbc.body if isinstance(n, ast.FunctionDef)), None)
+    ok = False
+    if wrapper is not None and len(wrapper.body) == 1 and isinstance(wrapper.body[0], ast.With):
+        w = wrapper.body[0]
+        item = ast.unparse(w.items[0].context_expr) if len(w.items) == 1 else ""
+        body = [ast.unparse(x) for x in w.body]
+        ok = (item == "db_locks[self._file_path]" and len(body) == 2
+              and body[0].replace("\n", " ").split() == "if self._cursor: return f(self, *args, **kwargs)".split()
+              and body[1] == "return None")
+    meta["db_call_blocking"] = ok
+    for name in ("execute", "commit", "executescript"):
+        fn = next((n for n in base_cls.body if isinstance(n, ast.FunctionDef) and n.name == name), None)
+        if fn is None or [ast.unparse(d) for d in fn.decorator_list] != ["db_call"]:
+            raise TranslatorError(f"Database.{name} is not decorated with exactly @db_call")
     # python's implicit transaction handling: _connect must not switch the connection to autocommit
     conn = next((n for n in base_cls.body if isinstance(n, ast.FunctionDef) and n.name == "_connect"), None)
     if conn is None:
@@ -465,10 +543,10 @@ def translate() -> tuple[str, dict]:
             meta["tables"][name] = ti
             lean_tables.append(f"  {{ tid := {tr.tid(name)}, pk := {lean_list([str(tr.cid(c)) for c in ti['pk']])}, "
                                f"cols := {lean_list([str(tr.cid(c)) for c in ti['cols']])} }}@@   -- {name}")
-        ls = []
-        for s in stmts:
-            ls.append(f".createTable {s[1]}" if s[0] == "createTable" else "." + s[0])
-        lean_scripts.append((clsname, ls, [tr.tid(n) for n in tinfo]))
+        ls = [lean_stmt(s) for s in stmts]
+        latest, ups = _upgrades_of(tr, clsname)
+        meta.setdefault("open", {})[clsname] = {"latest": latest, "upgrades": ups}
+        lean_scripts.append((clsname, ls, [tr.tid(n) for n in tinfo], latest, ups))
     reload_lean, meta["reload"] = reload_mode()
     meta["table_names"] = list(tr.tables)
     meta["column_names"] = list(tr.columns)
@@ -498,16 +576,28 @@ def translate() -> tuple[str, dict]:
            _join_items(lean_tables),
            "]",
            ""]
-    for clsname, ls, tids in lean_scripts:
+    out += ["/-- exception kinds caught (and not re-raised) around the version-row read in Database._prepare_version -/",
+            f"def versionHandlers : List ExcKind := {lean_list(['.' + h for h in handlers])}",
+            ""]
+    for clsname, ls, tids, latest, ups in lean_scripts:
+        ups_l = lean_list([f"({v}, {lean_list([lean_stmt(x) for x in st])})" for v, st in ups])
         out += [f"/-- statements of {clsname}.get_schema(LATEST_DB_VERSION), in order -/",
                 f"def schema{clsname} : List SchemaStmt := {lean_list(ls)}",
                 f"def tables{clsname} : List Nat := {lean_list([str(t) for t in tids])}",
+                f"/-- how {clsname} opens a file: LATEST_DB_VERSION, get_upgrade_script(v) for every older v, the schema -/",
+                f"def open{clsname} : OpenCfg :=",
+                f"  {{ handlers := versionHandlers, latest := {latest}, upgrades := {ups_l}, script := schema{clsname} }}",
                 ""]
-    out += ["/-- exception kinds caught (and not re-raised) around the version-row read in Database._prepare_version -/",
-            f"def versionHandlers : List ExcKind := {lean_list(['.' + h for h in handlers])}",
-            "",
+    out += [
             "/-- how PseudonymManager.__init__ puts the stored tokens back into the tree -/",
             f"def reloadMode : ReloadMode := {reload_lean}",
+            "",
+            "/-- Database._initial_statements sets PRAGMA journal_mode = WAL / PRAGMA synchronous = NORMAL -/",
+            f"def journalModeWal : Bool := {'true' if meta['pragmas']['wal'] else 'false'}",
+            f"def synchronousNormal : Bool := {'true' if meta['pragmas']['sync_normal'] else 'false'}",
+            "",
+            "/-- db_call: `with db_locks[self._file_path]:` (blocking) then `if self._cursor: return f(...)`; `return None` -/",
+            f"def dbCallBlocking : Bool := {'true' if meta['db_call_blocking'] else 'false'}",
             "",
             "/-- Database._connect leaves python's implicit transactions on (no autocommit) -/",
             f"def connectAutocommit : Bool := {'true' if meta['connect_autocommit'] else 'false'}",
